@@ -61,6 +61,17 @@ CLAIMS = {
         "note": "Trusted: that the documented closed forms are the minimisers (convex analysis), numpy sort/cumsum/eigh/clip. E3 equality is sound but incomplete: an algebraically "
                 "different yet equivalent rewrite outside the axioms of DESIGN 2.3 would be reported.",
     },
+    "C14": {
+        "engine": "E3 value numbering + E4 symbolic Linop algebra",
+        "category": "other",
+        "technique": "static analysis: per-path symbolic evaluation of every solver set-up method (operators as Linop terms, proxes and algorithms as constructor terms, closures as lambda terms), compared argument by argument with the documented system for that solver",
+        "text": "Decides, for each of the four solver set-ups and every path over {lamda, z, proxg, G, tau, sigma, alpha given or not}, that the constructed algorithm receives exactly the "
+                "operators, right-hand sides, gradients, proximal operators, strong-convexity constants, default step sizes and constraint operators of the documented objective "
+                "0.5||Ax-y||^2 + g(Gx) + lamda/2||x-z||^2, that unsupported combinations raise, that self.alg is built on self.x and _output returns it. "
+                "Symbolic A, G, y, z, proxg cover all problem instances; the suite samples three configurations.",
+        "design_ref": "DESIGN.md section 4 C14",
+        "note": "Relies on C03/C04 (operator algebra, A.N = A^H A), C11 (prox closed forms), C12/C13/C15 (the algorithms solve what they are given). Not decided: the numerical optimality gap after finitely many iterations.",
+    },
     "C15": {
         "engine": "E6 paths, E3 value numbering, E2 effects",
         "category": "other",
